@@ -212,7 +212,7 @@ theorem uNps_frameB (hab : a ≠ b) (t : Time) (l : List Nameplate) :
     · rename_i s1 e; rw [e] at h1; exact h1
     · rename_i s1 e; rw [e] at h1; exact h1.trans (ih s1)
 
-theorem uNps_db (t : Time) (l : List Nameplate) : ∀ (s : Sys), (s.uNps a t l).1.db = s.db := by
+theorem uNps_db_fr (t : Time) (l : List Nameplate) : ∀ (s : Sys), (s.uNps a t l).1.db = s.db := by
   induction l with
   | nil => intro s; rfl
   | cons np rest ih =>
@@ -296,7 +296,7 @@ theorem mailboxClose_frameB_of_pinv {m side : String} {mood : Option String} {t 
         have f2 := f1.trans (uNps_frameB (b := b) hab t
           (((s.modDb (·.closeSide m side mood)).commit).db.nameplatesOfMailbox a m)
           ((s.modDb (·.closeSide m side mood)).commit))
-        have hdb2 := uNps_db (a := a) t (((s.modDb (·.closeSide m side mood)).commit).db.nameplatesOfMailbox a m)
+        have hdb2 := uNps_db_fr (a := a) t (((s.modDb (·.closeSide m side mood)).commit).db.nameplatesOfMailbox a m)
           ((s.modDb (·.closeSide m side mood)).commit)
         split at e
         · rename_i s2 e2
